@@ -276,6 +276,19 @@ pub fn gt_dense(chain: &[(&Block, bool)]) -> bool {
     true
 }
 
+/// what the ADOPTION monitor additionally asks of a chain before it demands that the node adopt it: every window of FIVE
+/// consecutive blocks holds a ticket. For a chain of six or more blocks this follows from `gt_dense`; for a chain of exactly
+/// five blocks (still inside the start-up phase of the property) a ticket-less chain can no longer reach two tickets in its
+/// first window of six, and refusing it is not a violation.
+pub fn gt_startup_feasible(chain: &[(&Block, bool)]) -> bool {
+    for end in 4..chain.len() {
+        if chain[end - 4..=end].iter().filter(|(b, _)| b.has_golden_ticket).count() < 1 {
+            return false;
+        }
+    }
+    true
+}
+
 pub struct CaseOut {
     pub lines: Vec<(String, String)>, // (op, impl)
     pub fails: Vec<(String, String, serde_json::Value)>,
@@ -495,7 +508,7 @@ pub async fn run_case(
                     let obf: u128 = oc[fork..].iter().map(|(b, _)| b.burnfee as u128).sum();
                     let nbf: u128 = nc[fork..].iter().map(|(b, _)| b.burnfee as u128).sum();
                     let (_, clean) = replay(nc, &mut ids);
-                    let good = nc.iter().all(|(_, h)| *h) && clean && gt_dense(nc);
+                    let good = nc.iter().all(|(_, h)| *h) && clean && gt_dense(nc) && gt_startup_feasible(nc);
                     if good && nc.len() > oc.len() && nbf >= obf && after.tip.1 != ids.h(&b.hash) {
                         fail("C05/winning-chain-not-adopted".to_string(), format!("old len {} bf {} ; new len {} bf {}", oc.len(), obf, nc.len(), nbf));
                     }
